@@ -183,6 +183,11 @@ func newComponents() *components {
 	return c
 }
 
+func (c *components) ctxFor(ns string) context.Context {
+	return admission.NewContextWithRequest(context.Background(),
+		admission.Request{AdmissionRequest: admissionv1.AdmissionRequest{Namespace: ns}})
+}
+
 func errStr(err error) string {
 	if err == nil {
 		return ""
